@@ -16,6 +16,8 @@ type Origin struct {
 	// Name: callee name for calls (with "#i" result index), parameter name,
 	// constant text, global name.
 	Name string
+	// Idx is the result index for call origins.
+	Idx int
 }
 
 func (o Origin) String() string { return o.Kind + ":" + o.Name }
@@ -164,7 +166,7 @@ func (s Slicer) call(c *ssa.Call, idx int, walk func(ssa.Value), add func(Origin
 	if name == "" {
 		name = "dynamic:" + c.Call.Value.Name()
 	}
-	add(Origin{Kind: "call", V: c, Name: fmt.Sprintf("%s#%d", name, idx)})
+	add(Origin{Kind: "call", V: c, Name: fmt.Sprintf("%s#%d", name, idx), Idx: idx})
 }
 
 // load follows a memory read of address addr: stores into the same alloc
